@@ -316,6 +316,8 @@ def gen_c07(tier):
         m = G.Module("g_c07", "C07: every strict prefix of a valid encoding is incomplete; C08 tail handling via g_c06")
         lim = (lambda sh: 10 if sh.fam == "v5" else 14) if tier == "quick" else (lambda sh: 14 if sh.fam == "v5" else 20)
         shapes_list = [sh for sh in agree_shapes(tier) if not sh.malformed_by_shape and sh.total_len <= lim(sh)]
+        # a property whose decoder re-maps errors (Response Topic): a cut inside it must still be 'incomplete'
+        shapes_list += [sh for sh in SH.v5_shapes("quick") if sh.name == "publish_q0_t1_p1_x08l1" and sh.name not in [x.name for x in shapes_list]]
         for sh in shapes_list:
             fn, code, w, unwind, meta = G.emit_prefix(sh)
             m.add(fn, code, w, unwind, meta=meta)
